@@ -236,21 +236,18 @@ fn u(v: &Value) -> u64 {
 fn ulist(v: &Value) -> Vec<u64> {
     v.as_array().map(|a| a.iter().map(u).collect()).unwrap_or_default()
 }
-fn chan(form: u64, upper: bool, v: u64) -> Vec<u8> {
+fn chan_digits(form: u64) -> u32 {
     match form {
-        0 => vec![hex_digit(upper, v / 17)],
-        1 | 4 => hex2(upper, v),
-        2 => {
-            let mut x = hex2(upper, v);
-            x.push(hex_digit(upper, v / 16));
-            x
-        }
-        _ => {
-            let mut x = hex2(upper, v);
-            x.extend(hex2(upper, v));
-            x
-        }
+        0 => 1,
+        1 | 4 => 2,
+        2 => 3,
+        _ => 4,
     }
+}
+/// the channel value as transmitted: `chan_digits(form)` hex digits, most significant first
+fn chan(form: u64, upper: bool, v: u64) -> Vec<u8> {
+    let n = chan_digits(form);
+    (0..n).rev().map(|i| hex_digit(upper, (v >> (4 * i)) & 15)).collect()
 }
 fn utf8(c: u64) -> Vec<u8> {
     let mut buf = [0u8; 4];
@@ -558,7 +555,7 @@ fn c_report(r: &Value) -> String {
         "color" => {
             let c = ulist(&r["c"]);
             format!(
-                "(RColor {} (RGBA {} {} {} 255) {} {} {})",
+                "(RColor {} {} {} {} {} {} {})",
                 match u(&r["name"][0]) {
                     0 => "TFg".to_string(),
                     1 => "TBg".to_string(),
@@ -784,7 +781,13 @@ fn g_report(rng: &mut Rng) -> Value {
         }
         11 | 12 => {
             let form = rng.below(5);
-            let c: Vec<u64> = (0..3).map(|_| if form == 0 { 17 * rng.below(16) } else { g_chan(rng) }).collect();
+            let bound = 1u64 << (4 * chan_digits(form));
+            let c: Vec<u64> = (0..3)
+                .map(|_| match rng.below(3) {
+                    0 => *rng.pick(&[0u64, 1, bound / 2 - 1, bound / 2, bound - 2, bound - 1, 0x80ff % bound, 0x7f00 % bound, 255 % bound, 256 % bound]),
+                    _ => rng.below(bound),
+                })
+                .collect();
             let name = match rng.below(3) {
                 0 => json!([0, 0]),
                 1 => json!([1, 0]),
@@ -900,8 +903,8 @@ pub fn generate(rng: &mut Rng, n: usize, tier: &str) -> Vec<Value> {
     for form in 0..5u64 {
         for end in 0..2u64 {
             for upper in [false, true] {
-                for c in [[0u64, 255, 17], [170, 187, 204], [255, 0, 255], [1, 128, 254], [16, 15, 240]] {
-                    let c: Vec<u64> = if form == 0 { c.iter().map(|x| (x / 17) * 17).collect() } else { c.to_vec() };
+                let bound = 1u64 << (4 * chan_digits(form));
+                for c in [[0u64, bound - 1, bound / 2], [bound / 2 - 1, 1, bound - 2], [0x80ff % bound, 0x0100 % bound, 0xfeff % bound]] {
                     v.push(json!({"reports": [{"t": "color", "name": [form % 3, 7 + form * 50], "c": c, "form": form, "upper": upper, "end": end}], "cuts": []}));
                 }
             }
